@@ -145,12 +145,13 @@ def cmd_check(argv):
     zero = [p for p in spec.get('expected_probes', []) if not sw.probes.get(p)]
     if zero:
         print(f'[vcheck] warning: probes never hit: {zero}')
-    if harness_error:
-        return 2
     if violation_lines:
+        # a reproduced violation outranks harness errors seen in other runs of the sweep
         for vl in violation_lines:
             print(vl)
         return 1
+    if harness_error:
+        return 2
     return 0
 
 
